@@ -210,6 +210,33 @@ Theorem C16_api_refused_unchanged : forall s q,
 Proof. exact api_refused_unchanged. Qed.
 Print Assumptions C16_api_refused_unchanged.
 
+(* ---------------- a refused update changes nothing ---------------- *)
+
+(* After a write operation that is refused -- wrong or stale tag, missing
+   token, or a system call that fails ([OFail]; not inside Expire) -- the
+   running server answers every Get exactly as before the operation (the last
+   accepted version), and exactly as a restarted server. *)
+Theorem C16_refused_update_changes_nothing : forall h o w,
+  fresh [] (h ++ [o]) -> Forall ok_op h -> not_expire w ->
+  (o = ODo w \/ exists k, o = OFail w k) ->
+  let s := run init_state h in
+  o_res (snd (step s o)) <> ROk ->
+  forall n,
+    snd (step (fst (step s o)) (OGet n)) = snd (step s (OGet n)) /\
+    snd (step (fst (step s o)) (OGet n)) = snd (step (fst (step (fst (step s o)) ORestart)) (OGet n)).
+Proof. exact refused_update_hist. Qed.
+Print Assumptions C16_refused_update_changes_nothing.
+
+(* the token commands of the signalling protocol (maketoken, edittoken,
+   listtokens; [sig_step], run against the real handleClientMessage by the
+   `tokapi` driver) are histories of store operations too: edittoken is a Get
+   followed by an Update -- possibly under an I/O fault -- of a COPY of the
+   token, with the tag just read *)
+Theorem C16_sig_is_history : forall fault s q,
+  fst (sig_step fault s q) = run s (sig_ops fault s q).
+Proof. exact sig_is_history. Qed.
+Print Assumptions C16_sig_is_history.
+
 (* ---------------- the hypotheses are needed ---------------- *)
 
 (* without the assumption on write(2): a creation torn inside its write
